@@ -29,6 +29,42 @@ def to_py(it: Dict[str, Any]):
     return [to_py(x) for x in it["v"]]
 
 
+def flat_rows(item, prev: str = "") -> List[tuple]:
+    """(key text, value text or None) of every row, depth first - the declarative Flat of Listing.tla on Python values"""
+    out = []
+    pairs = item.items() if isinstance(item, dict) else [(f"{prev}[{i}]", v) for i, v in enumerate(item)]
+    for k, v in pairs:
+        if isinstance(v, str):
+            out.append((k, v))
+        else:
+            out.append((k, None))
+            out += flat_rows(v, k)
+    return out
+
+
+def tree_loses(rows: List[tuple], lines: List[str]) -> str:
+    """property-level reading of a printed leaf listing: every row's key (and value) must appear, in order, on a line of its
+    own - whole, or cut with a visible mark - unless the listing announces that it was capped.  -> '' or what is lost"""
+    announced = any("exceeded" in l or "(...)" in l for l in lines)
+    shown = sum(1 for l in lines if ":" in l or l.rstrip().endswith("..."))
+    if shown < len(rows) and not announced:
+        return f"{len(rows)} rows to state, {shown} lines printed, and no cap is announced"
+    j = 0
+    for n, (k, v) in enumerate(rows):
+        found = False
+        while j < len(lines):
+            l = lines[j]
+            j += 1
+            whole = (k + ":") in l and (v is None or v == "" or v in l.split(k + ":", 1)[1])
+            cut = l.rstrip().endswith("...") and ((k + ":") in l or (k + ":").startswith(l.strip()[:-3].strip()) or l.strip()[:-3].strip() in (k + ":"))
+            if whole or cut:
+                found = True
+                break
+        if not found:
+            return "" if announced else f"row {n + 1} ({k!r}: {v!r}) is not printed, not marked as cut, and no cap is announced"
+    return ""
+
+
 def check(chk: Check, budget: int):
     from smpl_extract.info import InfoTree
     res = chk.run_model(model(), label="design: flattening, cutting and capping of a leaf listing (every item of nesting <= 2)")
@@ -49,9 +85,14 @@ def check(chk: Check, budget: int):
         n += 1
         if got == "".join(l + "\n" for l in want):
             chk.agree()
-        else:
+            continue
+        # not the specification's text: is it still a listing that states every value (C20), or does it lose something?
+        lost = tree_loses(flat_rows(item), got.splitlines())
+        if lost:
             chk.violation({"listing": item, "width": c["width"], "cap": c["cap"]},
-                          f"leaf listing of {item!r} (page width {c['width']}, cap {c['cap']}): the specification prints {want}, the tool printed {got.splitlines()}")
+                          f"leaf listing of {item!r} (page width {c['width']}, cap {c['cap']}): {lost}; the specification prints {want}, the tool printed {got.splitlines()}")
+        else:
+            chk.drift("listing_layout_differs_from_Listing_tla")
     chk.extra["listing"] = {"universe": len(cases), "replayed": n, "capped": len(capped), "with_cut_lines": len(cut)}
 
 
@@ -78,7 +119,27 @@ def check_table(chk: Check):
         ok = got == "".join(l + "\n" for l in want) if rows else got.strip() == want[0]
         if ok:
             chk.agree()
-        else:
+            continue
+        # not the specification's text: can every name still be read off its own line, in order (C10)?
+        out, j, lost = got.splitlines(), 0, ""
+        for r in rows:
+            while j < len(out):
+                l, pos, good = out[j], 0, True
+                j += 1
+                for cell in r:
+                    at = l.find(cell, pos)
+                    if at < 0:
+                        good = False
+                        break
+                    pos = at + len(cell)
+                if good:
+                    break
+            else:
+                lost = f"no line shows the row {r!r} with its cells whole and in column order"
+                break
+        if lost:
             chk.violation({"table": rows, "minw": c["minw"]},
-                          f"directory listing of {rows!r} (minimum column width {c['minw']}): the specification prints {want}, the tool printed {got.splitlines()}")
+                          f"directory listing of {rows!r} (minimum column width {c['minw']}): {lost}; the specification prints {want}, the tool printed {out}")
+        else:
+            chk.drift("table_layout_differs_from_Table_tla")
     chk.extra["table_listing"] = {"tables": n}
